@@ -413,6 +413,23 @@ def check_partial_before_execution(repo, rep):
     rep.floor(rid, 3)
 
 
+def check_partial_candle_so_far(repo, rep, tier):
+    rid = "C07-R11"
+    rep.rule(rid, "the 1m candle a fill hook reads (the partial candle published before the execution) is the minute SO FAR: over the "
+                  "exhaustive match-loop runs (every weak ordering of O/H/L/C, up to three orders and reaction orders) its open is the "
+                  "minute's own open and its high / low are the extremes of the price path travelled up to that fill - also at the "
+                  "second and third fill inside one minute")
+    from props import matchloop
+    n = 0
+    for desc, viols, sample in matchloop.run_all(repo, tier):
+        n += 1
+        for r, key, msg in viols:
+            if r == rid:
+                rep.violation(rid, "match-loop|partial-so-far", msg, {"ordering": desc})
+        rep.instance(rid, desc, sample if n % 800 == 1 else None)
+    rep.floor(rid, 500)
+
+
 def run(repo: Repo, rep, tier: str):
     rep.exhaustive = True
     rep.assume("sessions start and warm-up lengths are aligned to every route timeframe (stated in the property)")
@@ -426,6 +443,7 @@ def run(repo: Repo, rep, tier: str):
     rep.guarded(check_chunk_divides_routes, repo, rep)
     rep.guarded(check_chunks_inside_session, repo, rep)
     rep.guarded(check_partial_before_execution, repo, rep)
+    rep.guarded(check_partial_candle_so_far, repo, rep, tier)
     rep.undecided_item("numerical equality of every stored candle at every observation time of a whole run (the per-site formulas and window arithmetic are decided)")
 
 
